@@ -59,6 +59,16 @@ pub struct LiftSpec {
     pub f: FnSpec,
 }
 
+/// `@derive <file> <Name>..` (R-MACRO-EXPAND): type definition + the derive macro's real `impl ContentHash` output
+#[derive(Default, Debug, Clone)]
+pub struct DeriveSpec {
+    pub file: String,
+    pub names: Vec<String>,
+    pub extra: String,   // hand-written spec fns / lemma for the impl block (single name only); empty = generated from the type definition
+    pub tattrs: String,  // attributes for the type item
+    pub f: FnSpec,       // sub-directives of the generated `hash` fn
+}
+
 #[derive(Debug, Clone)]
 pub enum Item {
     Raw(String),
@@ -67,7 +77,7 @@ pub enum Item {
     Impl { file: String, head: String, hdr: Option<String>, fns: Vec<FnSpec>, extra: String },
     Lift(LiftSpec),
     Const { file: String, name: String },
-    Derive { file: String, names: Vec<String> },
+    Derive(DeriveSpec),
 }
 
 #[derive(Default, Debug)]
@@ -199,18 +209,33 @@ pub fn parse(text: &str) -> Result<Unit, String> {
     enum Ctx { None, Fn, Type, Lift }
     let mut ctx = Ctx::None;
     let mut in_impl = false;
+    let mut in_derive = false;
     fn cur_fn(unit: &mut Unit, in_impl: bool) -> Option<&mut FnSpec> {
         match unit.items.last_mut()? {
             Item::Fn(f) => Some(f),
             Item::Impl { fns, .. } if in_impl => fns.last_mut(),
             Item::Lift(l) => Some(&mut l.f),
+            Item::Derive(d) => Some(&mut d.f),
             _ => None,
         }
     }
     for (d, a, body, ln) in dirs {
         let full = if a.is_empty() { body.clone() } else { format!("{}\n{}", a, body) };
         let full_trim = full.trim().to_string();
+        if matches!(d.as_str(), "raw" | "spec" | "type" | "const" | "derive" | "impl" | "endimpl" | "lift" | "endderive") { in_derive = false; }
+        if d == "fn" && in_derive && a.trim() == "hash" { ctx = Ctx::Fn; continue; }
+        if d == "fn" { in_derive = false; }
+        if in_derive && !matches!(ctx, Ctx::Fn) {
+            if let Some(Item::Derive(dv)) = unit.items.last_mut() {
+                match d.as_str() {
+                    "extra" => { dv.extra.push_str(&body); continue; }
+                    "attrs" => { dv.tattrs = full_trim; continue; }
+                    _ => {}
+                }
+            }
+        }
         match d.as_str() {
+            "endderive" => { ctx = Ctx::None; }
             "unit" => unit.name = a,
             "serves" => unit.serves = a.split_whitespace().map(String::from).collect(),
             "prelude" => { for p in a.split_whitespace() { if !unit.prelude.iter().any(|x| x == p) { unit.prelude.push(p.to_string()); } } }
@@ -249,8 +274,11 @@ pub fn parse(text: &str) -> Result<Unit, String> {
             "derive" => {
                 let mut it = a.split_whitespace();
                 let file = it.next().ok_or(format!("line {ln}: @derive file Names.."))?.to_string();
-                let names = it.map(String::from).collect();
-                unit.items.push(Item::Derive { file, names });
+                let names: Vec<String> = it.map(|s| s.trim_end_matches(',').to_string()).filter(|s| !s.is_empty()).collect();
+                if names.is_empty() { return Err(format!("line {ln}: @derive file Names..")); }
+                let f = FnSpec { ret_name: "r".into(), line: ln, file: file.clone(), path: "hash".into(), ..Default::default() };
+                unit.items.push(Item::Derive(DeriveSpec { file, names, f, ..Default::default() }));
+                in_derive = true;
                 ctx = Ctx::None;
             }
             "impl" => {
